@@ -138,15 +138,32 @@ func (ab *AccessBarrier) doCleanup() {
 		verifYield(VerifPtCleanLoop)
 		node := iter.GetNode()
 		bs := (*BarrierSession)(node.Item())
-		if bs.seqno != ab.freeSeqno+1 {
+		if bs.seqno != atomic.LoadUint64(&ab.freeSeqno)+1 {
 			return
 		}
 
-		ab.freeSeqno++
+		atomic.AddUint64(&ab.freeSeqno, 1)
 		ab.callb(bs.objectRef)
 		ab.freeq.DeleteNode(node, CompareBS, buf2, &ab.freeq.Stats)
 		ab.numFreed++
 	}
+}
+
+// hasReadySession reports whether the oldest queued session is the next one
+// to be destructed.
+func (ab *AccessBarrier) hasReadySession() bool {
+	buf := ab.freeq.MakeBuf()
+	defer ab.freeq.FreeBuf(buf)
+
+	iter := ab.freeq.NewIterator(CompareBS, buf)
+	defer iter.Close()
+
+	iter.SeekFirst()
+	if !iter.Valid() {
+		return false
+	}
+	bs := (*BarrierSession)(iter.Get())
+	return bs.seqno == atomic.LoadUint64(&ab.freeSeqno)+1
 }
 
 // Acquire marks enter of an accessor in the skiplist
@@ -184,10 +201,17 @@ func (ab *AccessBarrier) Release(bs *BarrierSession) {
 					panic("unable to insert barrier session into free list")
 				}
 				verifYield(VerifPtRelQueued)
-				if atomic.CompareAndSwapInt32(&ab.isDestructorRunning, 0, 1) {
+				for atomic.CompareAndSwapInt32(&ab.isDestructorRunning, 0, 1) {
 					ab.doCleanup()
 					verifYield(VerifPtCleanEnd)
 					atomic.CompareAndSwapInt32(&ab.isDestructorRunning, 1, 0)
+					verifYield(VerifPtCleanReset)
+					// A session queued after doCleanup examined the queue, by a
+					// releaser which found the destructor busy and left, would
+					// otherwise wait for some future flush. Look again.
+					if !ab.hasReadySession() {
+						break
+					}
 				}
 			}
 		} else if liveCount < 0 || liveCount == barrierFlushOffset-1 {
